@@ -298,3 +298,41 @@ func VerifC12_copyseq() {
 		}
 	}
 }
+
+// VerifC12_nestedcell: a cell whose item is itself a cell is an owner of its own: it does not report
+// the inner cell's properties - not when made, not after its own keys were cleared and it was updated -
+// and what is set on it does not reach the inner cell.
+func VerifC12_nestedcell() {
+	k1, k2 := &vfKeyT{40}, &vfKeyT{41}
+	inner := NewCell("x")
+	inner.SetProperty(k1, 1)
+	var outer *Cell
+	switch vfChoice("via", 3) {
+	case 0:
+		c := NewCell(inner)
+		outer = &c
+	case 1:
+		t := New()
+		t.AddRowItems("a", inner)
+		outer, _ = t.CellAt(CellLocation{Row: 1, Column: 2})
+	case 2:
+		t := New()
+		t.AddHeaders(inner)
+		outer = &t.Headers()[0]
+	}
+	vfAssert(outer.GetProperty(k1) == nil, "wrapper-cell-has-only-its-own-properties")
+	switch vfChoice("then", 3) {
+	case 1:
+		outer.SetProperty(k2, 2)
+		outer.SetProperty(k2, nil)
+		outer.Update()
+	case 2:
+		outer.SetProperty(k1, 5)
+		vfAssert(outer.GetProperty(k1) == 5, "get-returns-last-set")
+		outer.SetProperty(k1, nil)
+		outer.Update()
+	}
+	vfAssert(outer.GetProperty(k1) == nil, "wrapper-cell-has-only-its-own-properties")
+	vfAssert(outer.GetProperty(k2) == nil, "wrapper-cell-has-only-its-own-properties")
+	vfAssert(inner.GetProperty(k1) == 1, "other-owner-unchanged")
+}
